@@ -1388,8 +1388,8 @@ VARIANTS = [
             "                if origin in {\"frozen\", \"built-in\"}:\n                    try:\n                        module = importlib.import_module(node.module)  # __import__('a.b') would return a",
             "                if origin in {\"frozen\", \"built-in\"}:\n                    try:\n                        module = __import__(node.module, fromlist=[\"*\"])"),
     Variant("star-imports-kept-while-names-are-untraced", "SILENT", "tracing",
-            "    for name in sorted(undefined_names | passed_on_names):\n        if trace_result := trace_origin(name, source):\n            if core.match_template(trace_result.ast, template):\n                starred_import_name_mapping[trace_result.ast].add(name)\n",
-            "    untraced_names = set()\n    for name in sorted(undefined_names | passed_on_names):\n        if trace_result := trace_origin(name, source):\n            if core.match_template(trace_result.ast, template):\n                starred_import_name_mapping[trace_result.ast].add(name)\n        else:\n            untraced_names.add(name)\n",
+            "    for name in sorted(undefined_names | passed_on_names | shadowed_builtins):\n        if trace_result := trace_origin(name, source):\n            if core.match_template(trace_result.ast, template):\n                starred_import_name_mapping[trace_result.ast].add(name)\n",
+            "    untraced_names = set()\n    for name in sorted(undefined_names | passed_on_names | shadowed_builtins):\n        if trace_result := trace_origin(name, source):\n            if core.match_template(trace_result.ast, template):\n                starred_import_name_mapping[trace_result.ast].add(name)\n        else:\n            untraced_names.add(name)\n",
             extra=[("tracing", "    # Remove remaining starred imports\n    for node in core.filter_nodes(root.body, template):", "    if untraced_names:\n        return\n\n    for node in core.filter_nodes(root.body, template):")]),
     Variant("alias-found-under-its-original-name", "FIRE", "tracing",
             "                    original_name = next(\n                        alias.name\n                        for alias in module_import_node.names\n                        if alias.asname == name or (alias.asname is None and alias.name == name)\n                    )",
@@ -1409,7 +1409,7 @@ VARIANTS = [
 
 META = {
     "design_ref": "DESIGN.md section 3, C18",
-    "technique": "field-propagation dataflow (module/level of constructed ImportFrom nodes, grouping keys) + mention checks + guard check of alias lookups by bound name; propositional entailment of comprehension filters; sibling agreement of the two readers of a star-imported module; contradiction rule for standard-library key forms; origin census of import-bound names",
+    "technique": "field-propagation dataflow (module/level of constructed ImportFrom nodes, grouping keys) + mention checks + guard check of alias lookups by bound name; propositional entailment of comprehension filters; sibling agreement of the two readers of a star-imported module; contradiction rule for standard-library key forms; origin census of import-bound names; def-use of the candidate set of the star-import narrowing (builtin-free operands)",
     "level_text": ("Decides on the current source that a constructed from-import never takes its module from an existing "
                    "import node without taking that node's level, that dictionaries grouping imports by module also key on "
                    "the level, that the textual constructor keeps the dots, and that __future__ imports are never counted "
